@@ -112,24 +112,6 @@ spec fn cred_ok(kind: CipherKind, pw: Seq<u8>, n: int, key: Seq<u8>, iks: Seq<Se
 #[verifier::external_body]
 fn verif_leak<T>(v: T) -> (r: &'static T) ensures *r == v { unimplemented!() }
 
-//@@ octo-squirrel/src/protocol.rs:14-20  enum Protocol  sha=f4fd8332bf4085d1
-#[derive(Clone, Copy)]
-pub enum Protocol {
-    Shadowsocks,
-    VMess,
-    Trojan,
-}
-
-//@@ octo-squirrel/src/config.rs:18-30  enum Mode  sha=957f62c1c01193ba
-#[derive(Clone, Copy)]
-pub enum cfg__Mode {
-    Tcp,
-    Udp,
-    TcpAndUdp,
-    Quic,
-    TcpAndQuic,
-}
-
 //@@ octo-squirrel/src/config.rs:64-84  struct ServerConfig  sha=4a1981ff06f0d60b
 pub struct ServerConfig<S: Clone + Default> {
     pub host: String,
